@@ -224,6 +224,7 @@ def _first(ck, p, byk):
             bi = later[0]
             t = f.blocks[bi]["t"]
         reach_ok = False
+        gates = set()
         if t["k"] == "switch":
             # the edge taken when the comparison is true
             tgt = [x for v, x in t["targets"] if str(v) != "0"] if isinstance(t.get("targets"), list) else []
@@ -257,8 +258,32 @@ def _first(ck, p, byk):
                             tt = [x3 for v, x3 in t2["targets"] if str(v) != "0"] or ([t2["otherwise"]] if t2.get("otherwise") is not None else [])
                             if tt and all(passes_upper(x3) for x3 in tt) and cfg.path(x, {b2}, avoid={head}) is not None:
                                 ok_x = True
+                                gates.add(b2)
                     reach_ok = reach_ok and ok_x
         ck.decide(rule, "make_title_case:first-word", reach_ok, f.loc(sx["ln"]), "`ordinal == 0` on the enumerate() counter of iter_word_likes(); its true edge reaches the upper-casing store before the next iteration on every path: %s" % reach_ok)
+        # ... and no iteration gets round the test: from the loop header back to it, every path passes the
+        # test (or an upper-casing store)
+        if t["k"] == "switch":
+            inside = [h for h, body in heads.items() if bi in body]
+            head = max(inside, key=lambda h: len(heads[h])) if inside else None
+            if head is not None:
+                # blocks that evaluate the comparison or branch on it
+                # `a || index == 0 || c` is lowered to a flag and one later switch on it: that switch is the
+                # place every iteration has to pass; a direct `if index == 0` is its own gate
+                tests = set(gates) if gates else {bi}
+                by = None
+                for s0 in cfg.succ[head]:
+                    if s0 in tests or s0 in ups:
+                        continue
+                    by = [s0] if s0 == head else cfg.path(s0, {head}, avoid=tests | set(ups))
+                    if by is not None:
+                        by = [head] + ([s0] if by and by[0] != s0 else []) + list(by)
+                        break
+                if by is None:
+                    ck.proved(rule, "make_title_case:first-word:every-word", f.loc(sx["ln"]), "every iteration of the word loop passes the first-word test (or upper-cases anyway) before the next one starts")
+                else:
+                    lns = sorted({f.blocks[b0]["t"].get("ln") for b0 in by if f.blocks[b0]["t"].get("ln")})
+                    ck.refuted(rule, "make_title_case:first-word:every-word", f.loc(lns[-1] if lns else sx["ln"]), "an iteration of the word loop can reach the next one without passing the first-word test or an upper-casing store (lines %s): a word that takes this way is not capitalised even when it is the first of the title - e.g. a proper noun whose dictionary spelling starts in lower case (eBay, iOS, macOS)" % lns[:8])
     elif position:
         bi, sx, names = position[0]
         ck.refuted(rule, "make_title_case:first-word", f.loc(sx["ln"]), "the first-word test compares a token position (%s) with 0: a title that opens with a quote, bracket or blank has its first word at a later position, so a leading `the`/`of`/`and` stays lower-case" % ", ".join(names))
